@@ -40,6 +40,8 @@ LeafOf(k) ==
       [] k = "TlmRC" -> TlmWith(Conn("S", <<Plain(SymR), Plain(SymC)>>), Conn("P", <<Plain(SymC), Labelled(SymR, <<"a">>)>>))
       [] k = "TlmTlm" -> TlmWith(Conn("S", <<Plain(SymTlm), Plain(SymR)>>), Conn("S", <<Plain(SymC)>>))
       [] k = "Tlmt" -> Labelled(SymTlm, <<"t">>)
+      [] k = "Ru" -> Labelled(SymR, <<"c", "_", "1">>)             \* a label containing an underscore
+      [] k = "Qf" -> [Plain(SymQ) EXCEPT !.ps[1].fx = TRUE]         \* first parameter fixed: the fit table lists n before Y
       [] k = "Rdash" -> Labelled(SymR, <<"a", "-", "b">>)          \* labels set_label accepts that are not identifiers
       [] k = "Rsp" -> Labelled(SymR, <<"m", "y", " ", "l">>)
 
